@@ -248,6 +248,9 @@ func c20GenCase(c *Ctx, stream string, i int) *c20Case {
 		j.Dirs = out
 		tc.Tags = append(tc.Tags, "no-flows-after-first-day")
 	}
+	if stream != "noflow" && r.Chance(1, 3) {
+		c20CloseOut(r, j, tc)
+	}
 	tc.NoAnno = true
 	for _, d := range j.Dirs {
 		if d.Targets != nil {
@@ -342,6 +345,97 @@ func c20GenCase(c *Ctx, stream string, i int) *c20Case {
 	tc.F = f
 	tc.Text, _ = j.Text()
 	return tc
+}
+
+// c20CloseOut empties every asset/liability position of one commodity (or of all) against an expense account, on a
+// later day of its own: the day's postings all bring a holding to exactly zero.
+func c20CloseOut(r *RNG, j *Journal, tc *c20Case) {
+	_, hi := c20Span(j)
+	type key struct{ acc, com string }
+	bal := map[key]*big.Rat{}
+	closed := map[string]bool{}
+	other := ""
+	add := func(a, com string, q *big.Rat) {
+		if !c16IsAL(a) {
+			return
+		}
+		k := key{a, com}
+		if bal[k] == nil {
+			bal[k] = new(big.Rat)
+		}
+		bal[k].Add(bal[k], q)
+	}
+	for _, d := range j.Dirs {
+		switch d.Kind {
+		case 'c':
+			closed[d.Account] = true
+		case 'o':
+			if strings.HasPrefix(d.Account, "Expenses") && other == "" {
+				other = d.Account
+			}
+		case 't':
+			if d.Accrual != nil {
+				return
+			}
+			for _, b := range d.Bookings {
+				q, ok := new(big.Rat).SetString(b.Qty)
+				if !ok {
+					return
+				}
+				add(b.Debit, b.Com, q)
+				add(b.Credit, b.Com, new(big.Rat).Neg(q))
+			}
+		}
+	}
+	lo, _ := c20Span(j)
+	if other == "" {
+		other = "Expenses:CloseOut"
+		j.Dirs = append(j.Dirs, JDir{Kind: 'o', Date: lo, Account: other})
+	}
+	var keys []key
+	for k, v := range bal {
+		if v.Sign() != 0 && !closed[k.acc] {
+			keys = append(keys, k)
+		}
+	}
+	sort.Slice(keys, func(a, b int) bool { return keys[a].acc+"|"+keys[a].com < keys[b].acc+"|"+keys[b].com })
+	if len(keys) == 0 {
+		return
+	}
+	only := ""
+	if r.Chance(2, 3) {
+		only = Pick(r, keys).com
+	}
+	day := hi + r.Range(1, 40)
+	tx := JDir{Kind: 't', Date: day, Desc: "close out"}
+	for _, k := range keys {
+		if only != "" && k.com != only {
+			continue
+		}
+		v := bal[k]
+		if v.Sign() > 0 {
+			tx.Bookings = append(tx.Bookings, JBook{Credit: k.acc, Debit: other, Qty: c20DecString(v), Com: k.com})
+		} else {
+			tx.Bookings = append(tx.Bookings, JBook{Credit: other, Debit: k.acc, Qty: c20DecString(new(big.Rat).Neg(v)), Com: k.com})
+		}
+	}
+	j.Dirs = append(j.Dirs, tx)
+	// something to report afterwards as well
+	if r.Chance(1, 2) {
+		j.Dirs = append(j.Dirs, JDir{Kind: 'o', Date: day + r.Range(1, 60), Account: "Expenses:After" + itoa(r.Intn(100))})
+	}
+	tc.Tags = append(tc.Tags, "close-out")
+}
+
+// c20DecString: exact decimal literal of a rational with a power-of-ten denominator
+func c20DecString(v *big.Rat) string {
+	for n := 0; n <= 40; n++ {
+		s := v.FloatString(n)
+		if x, ok := new(big.Rat).SetString(s); ok && x.Cmp(v) == 0 {
+			return s
+		}
+	}
+	return v.FloatString(40)
 }
 
 func (tc *c20Case) run(c *Ctx, dir string) {
@@ -630,6 +724,7 @@ func c20Check(c *Ctx, bt *Batch, tc *c20Case, agreed *bool) {
 	} else if retOutcome == "error" {
 		c.Tag("returns-rejected")
 	}
+	illCond := map[int]bool{} // period ends the model marks as ill-conditioned (filled when the model answers)
 	bt.Add(func(model string) {
 		if model == "unsupported" {
 			c.Tag("model-unsupported")
@@ -651,6 +746,27 @@ func c20Check(c *Ctx, bt *Batch, tc *c20Case, agreed *bool) {
 				p := strings.SplitN(e, ":", 2)
 				day, _ := strconv.Atoi(p[0])
 				s := "undefined"
+				if strings.HasSuffix(p[1], "!") {
+					// the period has a day on which V0 + inflow vanishes (exactly or up to 1e-6 of its operands): the exact
+					// return is undefined or rests on the last truncated digits, the float64 division prints anything
+					p[1] = strings.TrimSuffix(p[1], "!")
+					illCond[day] = true
+					if k < len(lines) && lines[k].Day == day {
+						exactText := "undefined"
+						if p[1] != "undef" {
+							r, _ := c20Rat(p[1])
+							exactText = c20Round(new(big.Rat).Mul(r, big.NewRat(100, 1)), 1)
+						}
+						c.Tag("ill-conditioned-return")
+						if lines[k].Text != exactText && !(p[1] == "undef" && lines[k].Undef) {
+							c.MonitorKnown(tc.Stream, tc.Idx, "return of a period with a vanishing denominator", in,
+								fmt.Sprintf("%s: printed %s%%, exact value %s (a day of the period has V0 + inflow = 0 up to 1e-6 of its operands)\n%s", fmtDate(day), lines[k].Text, exactText, tc.RetOut),
+								"returns-meaningless-when-start-value-plus-inflow-vanishes")
+						}
+						mb = append(mb, fmt.Sprintf("%s:%s", fmtDate(day), lines[k].Text))
+						continue
+					}
+				}
 				if p[1] != "undef" {
 					r, _ := c20Rat(p[1])
 					pct := new(big.Rat).Mul(r, big.NewRat(100, 1))
@@ -693,21 +809,23 @@ func c20Check(c *Ctx, bt *Batch, tc *c20Case, agreed *bool) {
 			fmt.Sprintf("period ends of the partition: %v\nlines printed: %v\n%s", want, got, tc.RetOut))
 		// 0% when prices never change and no transaction is annotated (only external flows and internal transfers)
 		if tc.ConstPrices && tc.NoAnno {
-			var bad []string
-			for _, l := range lines {
-				if !l.Undef && math.Abs(l.Val) > 0.1 {
-					bad = append(bad, fmtDate(l.Day)+": "+l.Text+"%")
+			bt.Add(func(string) { // after the model's answer: periods it marks ill-conditioned are reported there
+				var bad []string
+				for _, l := range lines {
+					if !l.Undef && math.Abs(l.Val) > 0.1 && !illCond[l.Day] {
+						bad = append(bad, fmtDate(l.Day)+": "+l.Text+"%")
+					}
 				}
-			}
-			switch {
-			case len(bad) == 0:
-				c.Monitor(tc.Stream, tc.Idx, "zero_when_only_external_flows", in, true, "")
-			case len(tc.F.Com) > 0:
-				c.MonitorKnown(tc.Stream, tc.Idx, "zero_when_only_external_flows", in, "non-zero return with unchanged prices and only external flows: "+strings.Join(bad, ", ")+"\n"+tc.RetOut,
-					"returns-commodity-filter-counts-filtered-flows")
-			default:
-				c.Monitor(tc.Stream, tc.Idx, "zero_when_only_external_flows", in, false, "non-zero return with unchanged prices and only external flows: "+strings.Join(bad, ", ")+"\n"+tc.RetOut)
-			}
+				switch {
+				case len(bad) == 0:
+					c.Monitor(tc.Stream, tc.Idx, "zero_when_only_external_flows", in, true, "")
+				case len(tc.F.Com) > 0:
+					c.MonitorKnown(tc.Stream, tc.Idx, "zero_when_only_external_flows", in, "non-zero return with unchanged prices and only external flows: "+strings.Join(bad, ", ")+"\n"+tc.RetOut,
+						"returns-commodity-filter-counts-filtered-flows")
+				default:
+					c.Monitor(tc.Stream, tc.Idx, "zero_when_only_external_flows", in, false, "non-zero return with unchanged prices and only external flows: "+strings.Join(bad, ", ")+"\n"+tc.RetOut)
+				}
+			}, "returns", fw, wire)
 		}
 	}
 
